@@ -68,9 +68,10 @@ def gen_gaussian_case(r, cid):
     mode = r.choice(["eager", "eager", "reparam"])
     nsi = r.choice([0, 1, 1, 2]) if mode == "eager" else 0
     sample_inputs = [["p%d" % i, r.choice([1, 2, 3])] for i in range(nsi)]
-    order = r.random() < 0.5  # ints first or interleaved
+    sqrt = r.choice(["chol", "rotated", "negdiag", "wide"]) if mode == "eager" else r.choice(["chol", "rotated", "negdiag"])
     return {
         "kind": "gaussian",
+        "sqrt": sqrt,
         "cid": cid,
         "batch": batch,
         "reals": reals,
@@ -323,8 +324,20 @@ def _mk_gaussian(case):
     A = np.array(case["mats"], dtype=np.float64).reshape(bshape + (dim, dim))
     P = A @ np.swapaxes(A, -1, -2) + 0.5 * np.eye(dim)
     L = np.linalg.cholesky(P)
+    sqrt_kind = case.get("sqrt", "chol")
+    if sqrt_kind == "rotated":
+        # another square root of the same precision: L Q with Q orthogonal
+        Q, _ = np.linalg.qr(np.array(case["mats"][0], dtype=np.float64).reshape(dim, dim) + 2.0 * np.eye(dim))
+        L = L @ Q
+    elif sqrt_kind == "negdiag":
+        signs = np.array([(-1.0) ** (i + 1) for i in range(dim)])
+        L = L * signs  # flips the sign of every other column; L L^T unchanged
+    elif sqrt_kind == "wide":
+        # rank > dim: [L/sqrt2 , L/sqrt2] has the same L L^T
+        L = np.concatenate([L, L], -1) / np.sqrt(2.0)
     loc = np.array(case["locs"], dtype=np.float64).reshape(bshape + (dim,))
-    white = (np.swapaxes(L, -1, -2) @ loc[..., None])[..., 0]  # info = L white = P loc
+    # white_vec with  prec_sqrt @ white_vec = P loc :  least-norm solution  white = prec_sqrt^T loc
+    white = (np.swapaxes(L, -1, -2) @ loc[..., None])[..., 0]
     inputs = OrderedDict((n, funsor.Bint[s]) for n, s in case["batch"])
     for n, shape in case["reals"]:
         inputs[n] = funsor.Reals[tuple(shape)]
